@@ -118,7 +118,7 @@ class C02(Prop):
     async def run_case(self, case, acc, ctx):
         i = case["i"]
         r = env.rng("C02", case["seed"], i)
-        t = 2 if i % 4 == 3 else 1
+        t = 2 if env.sig("api-type", i) % 4 == 3 else 1   # not a function of i mod (number of shards): every worker sees both APIs
         dev_id, key = gen.device_id(r), gen.device_key(r)
         zone = env.ZONES[i % len(env.ZONES)]
         now = self._now_for(zone, r, case["seed"]) + r.choice([0.0, 0.3, 0.7])
